@@ -4,7 +4,7 @@
 # worktree) and leaves the outcome in MUTANTS/<x>/confirm.txt for tools/keep_mutant.py.
 HERE=$(cd "$(dirname "$0")" && pwd)
 for wt in "$1"*; do
-  ( for m in A B; do "$HERE/confirm_mutant.sh" "$wt" "$wt/MUTANTS/$m" > "$wt/MUTANTS/$m/confirm.txt" 2>&1; done ) &
+  ( for m in A B C D; do [ -d "$wt/MUTANTS/$m" ] || continue; "$HERE/confirm_mutant.sh" "$wt" "$wt/MUTANTS/$m" > "$wt/MUTANTS/$m/confirm.txt" 2>&1; done ) &
 done
 wait
-for wt in "$1"*; do for m in A B; do echo "$wt $m: $(tail -1 "$wt/MUTANTS/$m/confirm.txt")"; done; done
+for wt in "$1"*; do for m in A B C D; do [ -d "$wt/MUTANTS/$m" ] || continue; echo "$wt $m: $(tail -1 "$wt/MUTANTS/$m/confirm.txt")"; done; done
